@@ -56,7 +56,7 @@ def run(ctx):
     rng, lean = ctx.rng, ctx.lean
     pyhf.set_backend('numpy', precision='64b')
     for i in range(ctx.n(120, 4000)):
-        kind = rng.choice(['disjoint', 'disjoint', 'identical', 'conflict', 'obs-conflict', 'meas-shared', 'version'])
+        kind = rng.choice(['disjoint', 'disjoint', 'identical', 'conflict', 'obs-conflict', 'meas-shared', 'version', 'merge-samples'])
         L = gen_ws(rng, rng.sample(['A', 'B', 'C'], rng.randint(1, 2)))
         names_r = rng.sample(['D', 'E', 'F'], rng.randint(1, 2))
         R = gen_ws(rng, names_r, meas=rng.choice(['meas', 'meas2']) if kind != 'meas-shared' else 'meas')
@@ -72,7 +72,12 @@ def run(ctx):
             R['observations'].append(o)
         elif kind == 'version':
             R['version'] = '1.0.1'
-        join = rng.choice(JOINS); merge = rng.random() < 0.3
+        elif kind == 'merge-samples':
+            # same channel name on both sides, different samples: only channel merging can combine them
+            c = copy.deepcopy(L['channels'][0])
+            for sm in c['samples']: sm['name'] = 'other_' + sm['name']
+            R['channels'].append(c); R['observations'].append(copy.deepcopy(L['observations'][0]))
+        join = rng.choice(JOINS); merge = rng.random() < (0.3 if kind != 'merge-samples' else 0.8)
         fl, fr = copy.deepcopy(L), copy.deepcopy(R)
         try:
             wl = pyhf.Workspace(L); wr = pyhf.Workspace(R, validate=(kind != 'version'))
@@ -85,7 +90,7 @@ def run(ctx):
         except Exception as e:  # noqa
             out = None; err = type(e).__name__
         if dict(wl) != fl or dict(wr) != fr or L != fl or R != fr:
-            ctx.fail('C16/mutation', 'combine modified an input workspace', {'left': fl, 'right': fr, 'join': join})
+            ctx.fail('C16/mutation', 'combine modified an input workspace', {'left': fl, 'right': fr, 'join': join, 'merge_channels': merge})
         rep = lean.ok({'op': 'ws_combine', 'left': enc_ws(L), 'right': enc_ws(R), 'join': join, 'merge': merge})
         ctx.count()
         inp = {'kind': kind, 'left': fl, 'right': fr, 'join': join, 'merge_channels': merge}
@@ -132,8 +137,101 @@ def run(ctx):
                 pyhf.schema.validate(dict(out), 'workspace.json')
             except Exception:
                 ctx.fail('C16/schema', 'combined workspace is not schema-valid', inp)
+        if kind == 'merge-samples' and merge and join != 'none' and out is not None:
+            o = dict(out); cn = fl['channels'][0]['name']
+            got = [sm['name'] for c in o['channels'] if c['name'] == cn for sm in c['samples']]
+            want = [sm['name'] for sm in fl['channels'][0]['samples']] + ['other_' + sm['name'] for sm in fl['channels'][0]['samples']]
+            if sorted(got) != sorted(want):
+                ctx.fail('C16/merge-samples', 'channel merging does not keep the samples of both sides', inp, got, want)
         if kind != 'disjoint': ctx.nontrivial(json.dumps([fl, fr, join, merge], sort_keys=True))
         if i < 2: ctx.sample({'pair_kind': kind, 'join': join, 'merge': merge, 'outcome': err or 'ok', 'left_channels': [c['name'] for c in fl['channels']], 'right_channels': [c['name'] for c in fr['channels']]})
+    # ---------------- _prune_and_rename: random requests vs the Lean model
+    def enc_pws(ws):
+        d = lambda o: json.dumps(o, sort_keys=True)
+        return {'channels': [{'name': c['name'], 'samples': [{'name': sm['name'], 'data': d(sm['data']),
+                              'modifiers': [{'name': m['name'], 'type': m['type'], 'body': d({k: v for k, v in m.items() if k != 'name'})} for m in sm['modifiers']]}
+                             for sm in c['samples']]} for c in ws['channels']],
+                'measurements': [{'name': m['name'], 'poi': m['config']['poi'],
+                                  'parameters': [{'name': q['name'], 'body': d({k: v for k, v in q.items() if k != 'name'})} for q in m['config']['parameters']]} for m in ws['measurements']],
+                'observations': [{'name': o['name'], 'body': d({k: v for k, v in o.items() if k != 'name'})} for o in ws['observations']],
+                'version': ws['version']}
+    for i in range(ctx.n(80, 2500)):
+        W = gen_ws(rng, rng.sample(['A', 'B', 'C'], rng.randint(1, 3)))
+        W['measurements'].append({'name': 'second', 'config': {'poi': 'mu', 'parameters': copy.deepcopy(W['measurements'][0]['config']['parameters'])}})
+        mods = sorted({(m['name'], m['type']) for c in W['channels'] for sm in c['samples'] for m in sm['modifiers']})
+        # parameter configurations for (some of) the modifier names, incl. names shared between types
+        have = {q['name'] for q in W['measurements'][0]['config']['parameters']}
+        for n, t in mods:
+            if n not in have and t in ('normsys', 'histosys') and rng.random() < 0.7:
+                W['measurements'][0]['config']['parameters'].append({'name': n, 'inits': [0.25], 'bounds': [[-3.0, 3.0]], 'fixed': rng.random() < 0.5}); have.add(n)
+        frozen = copy.deepcopy(W)
+        try:
+            w = pyhf.Workspace(W)
+        except Exception:
+            continue
+        smp = sorted({sm['name'] for c in W['channels'] for sm in c['samples']}); chn = [c['name'] for c in W['channels']]
+        pick = lambda xs, pmax=2: rng.sample(xs, rng.randint(0, min(pmax, len(xs)))) if xs else []
+        bogus = rng.random() < 0.15
+        req = {'prune_modifiers': [], 'prune_modifier_types': [], 'prune_samples': [], 'prune_channels': [], 'prune_measurements': [],
+               'rename_modifiers': {}, 'rename_samples': {}, 'rename_channels': {}, 'rename_measurements': {}}
+        mode = rng.choice(['types', 'mods', 'samples', 'channels', 'measurements', 'rename', 'mixed'])
+        names_nopoi = [n for n, t in mods if n != 'mu']
+        if mode in ('types', 'mixed'): req['prune_modifier_types'] = pick(sorted({t for n, t in mods if t not in ('normfactor',)}), 1)
+        if mode in ('mods', 'mixed'): req['prune_modifiers'] = pick(names_nopoi, 2)
+        if mode in ('samples', 'mixed') and len(smp) > 1: req['prune_samples'] = pick([x for x in smp if x != 'signal'], 1)
+        if mode in ('channels', 'mixed') and len(chn) > 1: req['prune_channels'] = pick(chn, 1)
+        if mode in ('measurements', 'mixed'): req['prune_measurements'] = pick(['second'], 1)
+        if mode in ('rename', 'mixed'):
+            req['rename_modifiers'] = {n: 'rn_' + n for n in pick([x for x in names_nopoi if x not in req['prune_modifiers']] + ['mu'], 2)}
+            req['rename_samples'] = {n: 'rn_' + n for n in pick(smp, 1)}
+            req['rename_channels'] = {n: 'rn_' + n for n in pick(chn, 1)}
+            req['rename_measurements'] = {n: 'rn_' + n for n in pick(['meas'], 1)}
+        if bogus:
+            k = rng.choice(['prune_modifiers', 'prune_modifier_types', 'prune_samples', 'prune_channels', 'prune_measurements'])
+            req[k] = req[k] + ['no_such_thing']
+        try:
+            out = w._prune_and_rename(**req); err = None
+        except pyhf.exceptions.InvalidSpecification:
+            continue   # result not schema-valid (e.g. a channel left without samples): schema layer
+        except Exception as e:  # noqa
+            out = None; err = type(e).__name__
+        ctx.count(); ctx.tally('prune_mode', mode + ('/bogus' if bogus else '')); ctx.tally('prune_outcome', err or 'ok')
+        inp = {'workspace': frozen, 'request': req}
+        lreq = {k: (v if isinstance(v, list) else [[a, b] for a, b in v.items()]) for k, v in req.items()}
+        rep = lean.ok({'op': 'ws_prune_rename', 'ws': enc_pws(frozen), 'req': lreq})
+        if rep['error'] != err:
+            ctx.disagree('prune.outcome', inp, rep['error'], err)
+        elif out is not None and enc_pws(dict(out)) != rep['ws']:
+            ctx.disagree('prune.result', inp, rep['ws'], enc_pws(dict(out)))
+        if dict(w) != frozen or W != frozen:
+            ctx.fail('C16/mutation', '_prune_and_rename modified its input', inp)
+        if out is not None:
+            o = dict(out)
+            # oracle (property text): exactly the named items are gone …
+            if bogus: ctx.fail('C16/prune-unknown', 'a request naming an unknown item was accepted', inp)
+            kept_pars = [[q for q in m['config']['parameters'] if q['name'] not in req['prune_modifiers']] for m in frozen['measurements'] if m['name'] not in req['prune_measurements']]
+            got_pars = [m['config']['parameters'] for m in o['measurements']]
+            ren = req['rename_modifiers']
+            if [[dict(q, name=ren.get(q['name'], q['name'])) for q in ps] for ps in kept_pars] != got_pars:
+                ctx.fail('C16/prune-configs', 'parameter configurations of surviving names were dropped or changed', inp, got_pars, kept_pars)
+            # … and the likelihood of the remainder is unchanged: model of the result vs model of the independently filtered spec
+            if mode in ('types', 'channels') and not any(req[k] for k in req if k.startswith('rename')):
+                try:
+                    exp = copy.deepcopy(frozen)
+                    exp['channels'] = [c for c in exp['channels'] if c['name'] not in req['prune_channels']]
+                    exp['observations'] = [x for x in exp['observations'] if x['name'] not in req['prune_channels']]
+                    for c in exp['channels']:
+                        for sm in c['samples']: sm['modifiers'] = [m for m in sm['modifiers'] if m['type'] not in req['prune_modifier_types']]
+                    me = pyhf.Workspace(exp).model(measurement_name='meas'); mo = out.model(measurement_name='meas')
+                    if me.config.par_names != mo.config.par_names or list(me.config.suggested_init()) != list(mo.config.suggested_init()) or \
+                       list(me.config.suggested_fixed()) != list(mo.config.suggested_fixed()) or list(me.config.suggested_bounds()) != list(mo.config.suggested_bounds()):
+                        ctx.fail('C16/prune-config', 'initial values / bounds / fixed flags of the remainder changed under pruning', inp)
+                    p = np.asarray(me.config.suggested_init(), dtype=float); de = pyhf.Workspace(exp).data(me); do = out.data(mo)
+                    if abs(float(me.logpdf(p, np.asarray(de))[0]) - float(mo.logpdf(p, np.asarray(do))[0])) > 1e-9:
+                        ctx.fail('C16/prune-loglik', 'likelihood of the remainder changed under pruning', inp)
+                except (pyhf.exceptions.InvalidModel, pyhf.exceptions.InvalidSpecification):
+                    pass
+        if mode == 'mixed': ctx.nontrivial(json.dumps([frozen, req], sort_keys=True))
     # ---------------- prune / rename / sorted
     for i in range(ctx.n(60, 1500)):
         W = gen_ws(rng, rng.sample(['A', 'B', 'C'], rng.randint(2, 3)))
